@@ -34,13 +34,39 @@ Qed.
 Lemma run_linv : forall cfg ops st, wf_cfg cfg -> linv cfg st -> linv cfg (run cfg st ops).
 Proof. intros cfg ops st W. apply run_ind. intros; apply next_linv; assumption. Qed.
 
-(* reachable states: any history from an initial state (no locks, no accounts; any validators, multipliers, supply) *)
+(* reachable states: any history from an initial state (no locks, no accounts; any validators, multipliers, supply), in which
+   validators may also be slashed (by fractions up to 1/2) at any point *)
+Definition eop_ok (e : eop) : Prop := match e with EOp _ => True | ESlash _ _ f => 0 <= 2 * f <= P18 end.
 Definition reachable (cfg : config) (st : state) : Prop :=
-  exists t0 vals mults sup off bnd ops, 0 < t0 /\ st = run cfg (init_state t0 vals mults sup off bnd) ops.
+  exists t0 vals mults sup off bnd es, 0 < t0 /\ Forall eop_ok es /\ st = erun cfg (init_state t0 vals mults sup off bnd) es.
+
+Lemma enext_linv : forall cfg st e, wf_cfg cfg -> eop_ok e -> linv cfg st -> linv cfg (enext cfg st e).
+Proof.
+  intros cfg st e W He I. destruct e as [o|order v f]; unfold enext, eapply.
+  - apply next_linv; assumption.
+  - destruct (slash st order v f) as [st'|x] eqn:E; cbn [fst]; [|assumption]. eapply slash_linv; eassumption.
+Qed.
+
+Lemma erun_linv : forall cfg es st, wf_cfg cfg -> Forall eop_ok es -> linv cfg st -> linv cfg (erun cfg st es).
+Proof.
+  intros cfg. induction es as [|e r IH]; intros st W Hf I; [assumption|]. inversion Hf; subst.
+  change (erun cfg st (e :: r)) with (erun cfg (enext cfg st e) r). apply IH; try assumption. apply enext_linv; assumption.
+Qed.
+
+Lemma erun_map_EOp : forall cfg ops st, erun cfg st (map EOp ops) = run cfg st ops.
+Proof. intros cfg. induction ops as [|o r IH]; intros st; [reflexivity|]. cbn [map]. apply IH. Qed.
+
+Lemma run_reachable : forall cfg t0 vals mults sup off bnd ops, 0 < t0 ->
+  reachable cfg (run cfg (init_state t0 vals mults sup off bnd) ops).
+Proof.
+  intros. exists t0, vals, mults, sup, off, bnd, (map EOp ops). split; [assumption|]. split.
+  - apply Forall_forall. intros e He. apply in_map_iff in He. destruct He as [o [<- _]]. exact Logic.I.
+  - symmetry. apply erun_map_EOp.
+Qed.
 
 Lemma reachable_linv : forall cfg st, wf_cfg cfg -> reachable cfg st -> linv cfg st.
 Proof.
-  intros cfg st W [t0 [vals [mults [sup [off [bnd [ops [H ->]]]]]]]]. apply run_linv; [assumption|]. apply init_linv. assumption.
+  intros cfg st W [t0 [vals [mults [sup [off [bnd [es [H [Hf ->]]]]]]]]]. apply erun_linv; try assumption. apply init_linv. assumption.
 Qed.
 
 (* ---- supply ---- *)
